@@ -91,7 +91,7 @@ CHECKS = {
    ref='7 (C17)'),
  'C18': dict(
    cat='proof',
-   text='Format-frozen theorem (generated on-disk format data: schema DDL, settings, file layout, queue-key constants, shard directory format, plus the Disk put/store/fetch/hash decision trees = hand-frozen copy of release 5.6.3), settings-merge theorems for all dictionaries (given > stored > defaults, idempotent reopen), FanoutCache size_limit refuted (finding C18-F1) + partial for every other setting, handle state round trip. Partial: cross-handle/thread/fork/process visibility and "every operation depends only on directory state" are exercised (reference-dictionary monitor over histories with close/reopen/pickle/copy/thread/fork/new-process events for Cache, FanoutCache, Deque, Index, DjangoCache; golden directory written by the pinned version read back) not proved.',
+   text='Format-frozen theorem (generated on-disk format data: schema DDL, settings, file layout, queue-key constants, shard directory format, plus the Disk put/store/fetch/hash decision trees = hand-frozen copy of release 5.6.3), settings-merge theorems for all dictionaries (given > stored > defaults, idempotent reopen), the same for every shard of a FanoutCache and every setting incl. size_limit (existing shard opened without size_limit keeps the stored limit, new shard gets default/shards, given limit divided and stored; the former finding C18-F1, repaired in 3d346b2, is kept as a refutation of the RELEASED size_limit rule, and the format-frozen theorem states that one recorded difference explicitly), handle state round trip. Partial: cross-handle/thread/fork/process visibility and "every operation depends only on directory state" are exercised (reference-dictionary monitor over histories with close/reopen/pickle/copy/thread/fork/new-process events for Cache, FanoutCache, Deque, Index, DjangoCache; golden directory written by the pinned version read back) not proved.',
    note='Trusted: Coq kernel; translator; the frozen decision trees include the two recorded value-path fixes (NaN -> pickle, newline=""), which do not change how existing files are read on POSIX; process/fork/thread behaviour of SQLite and CPython.',
    tech='Coq (reflexivity/vm_compute + list lemmas) + AST translator + golden fixture + differential testing of the settings merge',
    ref='7 (C18)'),
